@@ -10,14 +10,14 @@ LEVEL = "exploration"
 RULE = (
     "case = one sorted grid (uniform/arange, dyadic, geometric, random gaps, with repeated elements; 1-200 elements) "
     "with ~150 probe values (elements, exact mid-points, +-1 ulp around both, end points, far outside, random) and one "
-    "digitize_data array of shape (0..50, 1..6). Non-trivial sub-case = a probe within 2 ulps of a mid-point or outside "
+    "digitize_data array of shape (0..50, 1..6) - every 8th/16th case also an array of 4097-20000 values / rows in arbitrary order. Non-trivial sub-case = a probe within 2 ulps of a mid-point or outside "
     "the grid range; distinct by (grid hash, value)."
 )
 ASSUMPTIONS = [
     "distance is judged as computed in float64 (|g - v| rounded); an exactly-nearest element is always accepted",
     "values are finite; grids are sorted ascending",
 ]
-REQUIRED_COUNTERS = {"digitize_same_endpoint_families": 30, "values_checked": 1000, "midpoint_probes": 50, "outside_probes": 50, "digitize_columns": 10}
+REQUIRED_COUNTERS = {"large_arrays": 20, "digitize_same_endpoint_families": 30, "values_checked": 1000, "midpoint_probes": 50, "outside_probes": 50, "digitize_columns": 10}
 SHARDS = {"quick": 8, "thorough": 16}
 
 
@@ -134,9 +134,20 @@ def run_case(desc, ctx):
     out["nontrivial"] = [f"{gh:x}:{v!r}" for v in vals[mid | outside][:400]]
     out["evals"] = len(vals)
 
+    # large inputs (thousands of values in arbitrary order): snapping acts element-wise whatever the array length
+    if desc["i"] % 8 == 0:
+        big = rng.choice(vals, size=int(rng.integers(4097, 20000)))
+        try:
+            resb = get_closest(grid.copy(), big.copy())
+            c["large_arrays"] = c.get("large_arrays", 0) + 1
+            out["evals"] += len(big)
+            for k, why in judge(grid, big, resb)[:2]:
+                out["violations"].append({"msg": f"get_closest on {len(big)} values: " + why, "witness": {"grid": grid, "n_values": len(big)}})
+        except Exception as e:  # noqa: BLE001
+            out["violations"].append({"msg": f"get_closest raised on {len(big)} values: {type(e).__name__}: {e}", "witness": {"grid": grid}})
     # digitize_data: column j uses grid j
     d = int(rng.integers(1, 7))
-    rows = int(rng.integers(0, 51))
+    rows = int(rng.integers(0, 51)) if desc["i"] % 16 else int(rng.integers(4097, 9000))
     grids = [grid] + [make_grid(str(rng.choice(["arange", "dyadic", "random", "repeated"])), rng) for _ in range(d - 1)]
     if desc["i"] % 2 and len(grid) >= 3 and grid[-1] > grid[0]:
         # columns whose grids share length and both end points but differ inside (each column must still use its own grid)
